@@ -205,3 +205,33 @@ func VH_C03_withcrc() {
 	vndAssert((err == nil) == (perr == nil), "accepts exactly when the non-verifying parser accepts")
 	vndAssert(vndDeepEqual(got, plain), "decodes to the same value as the non-verifying parser")
 }
+
+// VH_C03_reemit: a frame emitted from a value that came off the wire (not from a constructor: padding bits, byte
+// counts and fields are whatever the sender put there) still ends with the CRC of the bytes before it. Run with the
+// CRC abstraction (counterexamples are refined against the real CRC16).
+func VH_C03_reemit() {
+	which := vndParam("which") // 0 = request parser, 1 = response parser
+	L := vndParam("L")
+	frame := vndBytes("frame", L, 0)
+	var out []byte
+	if which == 0 {
+		got, err := ParseRTURequestWithCRC(frame)
+		if err != nil {
+			return
+		}
+		out = got.Bytes()
+	} else {
+		got, err := ParseRTUResponseWithCRC(frame)
+		if err != nil {
+			return
+		}
+		out = got.Bytes()
+	}
+	n := len(out)
+	vndCover("re-emitted")
+	vndAssert(n >= 4, "a re-emitted RTU frame has at least unit, function and CRC")
+	if n >= 4 {
+		w := CRC16(out[:n-2])
+		vndAssert(out[n-2] == byte(w) && out[n-1] == byte(w>>8), "a frame re-emitted from a parsed value ends with the CRC of all preceding bytes, low byte first")
+	}
+}
